@@ -1,8 +1,8 @@
-SPECIFICATION Spec
+SPECIFICATION SSpec
 CONSTANTS
-  N = 3
-  RD = 2
-  CAP = 2
+  N = 4
+  RD = 3
+  CAP = 1
   MaxOps = 4
   FaultAt = 0
   KeepStaleOnFail = FALSE
@@ -13,7 +13,6 @@ CONSTANTS
   EarlyReturnOnForeign = FALSE
   KeepCurAfterKeep = FALSE
   KeepOnGet = FALSE
-  Foreign = {2, 3}
-  RealCache = FALSE
-INVARIANTS NoPanic DataIdentity ErrorsTrue NoStaleMapping CacheBounded Capacities NoLeak
-CHECK_DEADLOCK TRUE
+  Foreign = {}
+  RealCache = TRUE
+CHECK_DEADLOCK FALSE
